@@ -692,3 +692,62 @@ M("c17_trait_object_uses_grow", ["C17"], ["C17.R5"], [
     ("src/traits/bump_allocator_typed.rs", """        match bump.allocate(Layout::new::<T>()) {
             Ok(ptr) => Ok(ptr.cast()),""", """        match bump.allocate_zeroed(Layout::new::<T>()) {
             Ok(ptr) => Ok(ptr.cast()),""")])
+
+# ---------------------------------------------------------------- C18
+M("c18_aligned_lower_without_guard", ["C18"], ["C18.R2"], [
+    ("src/traits/bump_allocator_scope.rs", """            let guard = BumpAlignGuard::new(self);
+
+            // SAFETY: bump is already aligned to `NEW_MIN_ALIGN` and the guard will ensure
+            // that the bump pointer will again be aligned to `MIN_ALIGN` once it drops
+            let bump = unsafe { transmute_mut(guard.scope) };
+
+            f(bump)""", """            let r = f(unsafe { transmute_mut(&mut *self) });
+            drop(BumpAlignGuard::new(self));
+            r""")])
+M("c18_aligned_raise_transmute_before_align", ["C18"], ["C18.R1"], [
+    ("src/traits/bump_allocator_scope.rs", """            self.align::<NEW_MIN_ALIGN>();
+
+            // SAFETY: we aligned the bump pointer
+            let bump = unsafe { transmute_mut(self) };
+
+            f(bump)""", """            // SAFETY: we aligned the bump pointer
+            let bump: &mut BumpScope<'a, A, <S as BumpAllocatorSettings>::WithMinimumAlignment<NEW_MIN_ALIGN>> = unsafe { transmute_mut(self) };
+            if bump.stats().allocated() != 0 { bump.raw.align::<NEW_MIN_ALIGN>(); }
+
+            f(bump)""")])
+M("c18_scope_settings_drop_min_align_assert", ["C18"], ["C18.R4"], [
+    ("src/raw_bump.rs", """            assert!(
+                NewS::MIN_ALIGN >= S::MIN_ALIGN,
+                "can't decrease minimum alignment using `BumpScope::with_settings`"
+            );
+        }
+
+        if !NewS::CLAIMABLE && self.chunk.get().is_claimed() {
+            error_behavior::panic::claimed();
+        }
+
+        // A scope by value""", """        }
+
+        if !NewS::CLAIMABLE && self.chunk.get().is_claimed() {
+            error_behavior::panic::claimed();
+        }
+
+        // A scope by value""")])
+M("c18_ensure_unallocated_check_dropped", ["C18"], ["C18.R4"], [
+    ("src/raw_bump.rs", """        if NewS::GUARANTEED_ALLOCATED && self.chunk.get().is_unallocated() {
+            error_behavior::panic::unallocated();
+        }""", """        if NewS::GUARANTEED_ALLOCATED && self.chunk.get().is_unallocated() && S::CLAIMABLE {
+            error_behavior::panic::unallocated();
+        }""")])
+M("c18_borrow_mut_conversion_does_not_align", ["C18"], ["C18.R4", "C18.R1"], [
+    ("src/raw_bump.rs", """                "can't change guaranteed-allocated property using `Bump(Scope)::borrow_mut_with_settings`"
+            );
+        }
+
+        self.align_to::<NewS::MinimumAlignment>();""", """                "can't change guaranteed-allocated property using `Bump(Scope)::borrow_mut_with_settings`"
+            );
+        }
+
+        if NewS::UP { self.align_to::<NewS::MinimumAlignment>(); }""")])
+M("c18_align_guard_aligns_to_inner", ["C18"], ["C18.R2"], [
+    ("src/bump_align_guard.rs", "let addr = align_pos(S::UP, S::MIN_ALIGN, pos);", "let addr = align_pos(S::UP, 1, pos);")])
